@@ -611,6 +611,10 @@ func (e *Engine) doCall(s *state, fr *frame, v *ssa.Call, c *ssa.CallCommon) boo
 	if b, ok := c.Value.(*ssa.Builtin); ok {
 		switch b.Name() {
 		case "len":
+			if n, ok := knownLen(d.args[0]); ok {
+				fr.env[v] = mk("const", fmt.Sprint(n), 0, types.Typ[types.Int])
+				return false
+			}
 			fr.env[v] = mk("len", "", 0, types.Typ[types.Int], d.args[0])
 			if isMapTerm(d.args[0]) && !isLocalAddr(d.args[0]) {
 				s.emit(Event{Kind: "mapread", Recv: d.args[0], Pos: v.Pos(), Ctx: fr.ctx, Depth: fr.depth, InFn: fr.fn})
@@ -722,6 +726,28 @@ func (e *Engine) doCall(s *state, fr *frame, v *ssa.Call, c *ssa.CallCommon) boo
 		}
 	}
 	return false
+}
+
+// knownLen: length of slice literals and of append chains that start from one.
+func knownLen(t *Term) (int, bool) {
+	switch t.Kind {
+	case "varargs":
+		return len(t.Args), true
+	case "append":
+		n, ok := knownLen(t.Args[0])
+		if !ok {
+			return 0, false
+		}
+		for _, el := range t.Args[1:] {
+			m, ok := knownLen(el)
+			if !ok {
+				return 0, false
+			}
+			n += m
+		}
+		return n, true
+	}
+	return 0, false
 }
 
 func elemType(t types.Type) types.Type {
